@@ -736,6 +736,13 @@ func (s *State) applyFunction(name string, fn object.Object, args []object.Objec
 	if !ok {
 		return s.NewError("not a function: " + fn.Type().String() + ":" + fn.Inspect())
 	}
+	if gen := s.env.FunctionGeneration(); gen != s.cacheGen {
+		// A function was redefined or deleted: what was remembered for the functions calling it is stale.
+		if s.cache != nil {
+			s.cache = NewCache()
+		}
+		s.cacheGen = gen
+	}
 	if v, output, ok := s.cache.Get(function.CacheKey, args); ok {
 		log.Debugf("Cache hit for %s %v -> %#v", function.CacheKey, args, v)
 		if len(output) > 0 {
